@@ -374,10 +374,14 @@ CHECKS["C08"] = dict(
           "synthetic / recorded curves rounded to a binary grid (so that "
           "power-of-two factors and the tested shifts are exact: estimate "
           "identical; factors 3, 0.3, 1e9 within one sample for the "
-          "arithmetic estimators) and on degenerate inputs (constant, "
-          "decreasing, maximum first, single point, very short, no "
-          "baseline)."),
-    design_ref="5 (C08), 3.3", note=TB + "Estimator accuracy is not judged.",
+          "arithmetic estimators; exact offsets of 2^18 times the range "
+          "within one sample for all six) and on degenerate inputs "
+          "(constant, decreasing, maximum first, single point, very short, "
+          "no baseline). On noise-free model curves the distance to the "
+          "true contact is compared with the per-estimator envelope "
+          "AccBound of PocTrace.tla (the 'stated fraction')."),
+    design_ref="5 (C08), 3.3, II.6", note=TB + "Accuracy is judged only "
+    "against the stated envelope on noise-free curves.",
     technique=("TLA+ transcription of two estimators over rationals "
                "model-checked by TLC; real estimators validated case by "
                "case by TLC (PocTrace.tla)"))
